@@ -48,17 +48,24 @@ func runC16(c *core.Ctx) {
 			p.Args = append(p.Args, &ArgDecl{Name: "tmp", Multi: true})
 		}
 	}
+	if pi%13 == 7 {
+		// an option that can be written --help is an option like any other for the generated spec
+		p.Opts = append(append([]*OptDecl{}, p.Opts...), &OptDecl{Names: []string{"x", "help"}, Flag: true})
+	}
 	for _, a := range p.Args {
 		a.EnvSet = pi%3 == 0 && c.R.Intn(2) == 0 // a set environment variable must not change the generated spec
 		a.Hide = c.R.Intn(4) == 0                // nor does HideValue: it is about the help only
-		a.FlagLike = c.R.Intn(6) == 0            // nor a bool-like value type
+		// nor the built-in integer type (its values are judged by C13, not here; one such argument at most, so that
+		// which conversion error is reported first cannot depend on the iteration order of a map)
+		a.BuiltinInt = a == p.Args[0] && c.R.Intn(4) == 0
+		a.FlagLike = c.R.Intn(6) == 0 // nor a bool-like value type
 		a.Default = ""
 		if c.R.Intn(4) == 0 {
 			a.Default = "dflt" // nor a non-empty default
 		}
 	}
 	// argument names: some are suffixes / prefixes of one another
-	names := []string{"X", "Y", "Z_2", "FILE_", "A_", "SRC", "SRC_FILE", "FILE", "C", "DST", "DST2", "S", "ARGUMENT_NUMBER_11", "ARGUMENT_NUMBER_12", "ARGUMENT_NUMBER_13"}
+	names := []string{"X", "Y", "Z_2", "FILE_", "A_", "OPTIONS_FILE", "OPTIONSX", "SRC", "SRC_FILE", "FILE", "C", "DST", "DST2", "S", "ARGUMENT_NUMBER_11", "ARGUMENT_NUMBER_12", "ARGUMENT_NUMBER_13"}
 	c.R.Shuffle(len(names), func(i, j int) { names[i], names[j] = names[j], names[i] })
 	for i, a := range p.Args {
 		a.Name = names[i]
@@ -91,6 +98,9 @@ func runC16(c *core.Ctx) {
 		a := drive.Single(q)
 		a.Version, a.ArgsFirst = version, argsFirst
 		a.Root.EnvOnlyOpt = envOnly
+		if withSub && pi%12 == 9 {
+			a.Root.Action = drive.Beh{Kind: drive.BehAbsent} // a dispatch-only parent: its own arguments are validated all the same
+		}
 		if withSub {
 			a.Root.Kids = []*drive.Cmd{{ID: 1, Aliases: []string{"zz-sub-command"}, Prog: &Prog{}, Parent: a.Root, Action: drive.Beh{Kind: drive.BehReturn}}}
 		}
@@ -123,7 +133,13 @@ func runC16(c *core.Ctx) {
 	if oa.Stderr != "" {
 		c.Inc("printed_texts_equal")
 	}
-	if !FoldedEq(explModel, argv) && !versionRequest {
+	for _, a := range p.Args {
+		if a.BuiltinInt {
+			versionRequest = true // (no comparison with the reference: a token may be refused for not being a number)
+		}
+	}
+	noAction := withSub && pi%12 == 9 // (nothing "runs" then: the twins are compared with each other only)
+	if !FoldedEq(explModel, argv) && !versionRequest && !noAction {
 		if v, _ := decideBoth(explModel, BuildNFA(explModel, false), BuildNFA(explModel, true), argv); !v.Unclaimed && v.Accept != oa.Accepted() {
 			c.Violation(fmt.Sprintf("reference accept=%v for the implicit spec, library accept=%v", v.Accept, oa.Accepted()), nil, nil)
 			return
